@@ -29,6 +29,10 @@ dtml-unless written as the stand-alone `else NAME` block of the same documentati
 Oracle (independent of the model): output and ordered call log predicted from the chain by the documented rule, Python's
 try semantics for the recovery constructs; dtml-with = the attributes / keys layered over the namespace (`only`: over
 nothing) for exactly the duration of the body.  The expected values do not depend on the spelling.
+Objects and data sources (real classes against a plain-Python reference, outside the model): condition values of every kind
+whose truth is Python's (__bool__, else __len__, else true) - among them sequence-like objects whose truth is not "has an
+element 0" - plain or served by a logged callable, x every form of conditional x the data source that holds the name in a
+stack of data sources of every kind (incl. mappings that report a missing name with NameError), and undefined names.
 Correspondence: the same programs on the Lean interpreter model (results + call traces).
 """
 import itertools
@@ -1214,6 +1218,645 @@ def check(res, items, have_driver, r=None, histories=()):
     return runs
 
 
+# ---------------------------------------------------------------------------------------------------------------------
+# OBJECTS AND DATA SOURCES.  The condition values of the families above are what the Lean model knows (ints, strings, None,
+# callables); here they are Python objects of every kind whose TRUTH is decided by Python's truth protocol (__bool__, else
+# __len__, else true) and the namespace is a stack of data sources of every kind (dicts, mapping classes that report a missing
+# key with KeyError or with NameError, dict subclasses, client objects, template defaults, keyword arguments, sources pushed
+# by dtml-with / dtml-in ... mapping / dtml-let).  Real classes against a plain-Python reference; no model run.
+
+class SeqLike:
+    """sequence-like: __getitem__ + __len__, neither get nor keys; the rows are indexed base .. base+n-1"""
+
+    def __init__(self, rows, base=0, truth=None, label='seq'):
+        self.rows, self.base, self.truth, self.label = rows, base, truth, label
+
+    def __len__(self):
+        return len(self.rows)
+
+    def __getitem__(self, i):
+        if not isinstance(i, int):
+            raise TypeError(i)
+        if not self.base <= i < self.base + len(self.rows):
+            raise IndexError(i)
+        return self.rows[i - self.base]
+
+    def __str__(self):
+        return '<%s>' % self.label
+
+
+class SeqLikeBool(SeqLike):
+    """... with an explicit truth value (a result set that is false when the query was not complete, ...)"""
+
+    def __bool__(self):
+        return self.truth
+
+
+class StrKeyed(SeqLike):
+    """__getitem__ + __len__ keyed by strings (not a mapping by the get / keys test)"""
+
+    def __getitem__(self, k):
+        if not isinstance(k, str):
+            raise KeyError(k)
+        return self.rows[int(k)]
+
+
+class LenOnly:
+    def __init__(self, n):
+        self.n = n
+
+    def __len__(self):
+        return self.n
+
+    def __str__(self):
+        return '<len %d>' % self.n
+
+
+class BoolOnly:
+    def __init__(self, t):
+        self.t = t
+
+    def __bool__(self):
+        return self.t
+
+    def __str__(self):
+        return '<bool %s>' % self.t
+
+
+class BoolOverLen(LenOnly):
+    """__bool__ wins over __len__"""
+
+    def __init__(self, n, t):
+        self.n, self.t = n, t
+
+    def __bool__(self):
+        return self.t
+
+
+class GetItemOnly:
+    """__getitem__ without __len__: an ordinary object, true"""
+
+    def __getitem__(self, i):
+        raise IndexError(i)
+
+    def __str__(self):
+        return '<getitem only>'
+
+
+class MapLike(SeqLike):
+    """mapping-like: also get and keys"""
+
+    def get(self, k, d=None):
+        return d
+
+    def keys(self):
+        return []
+
+
+class MapLikeBool(MapLike):
+    def __bool__(self):
+        return self.truth
+
+
+class Plain:
+    def __str__(self):
+        return '<plain>'
+
+
+class TrueList(list):
+    def __bool__(self):
+        return True
+
+
+class FalseList(list):
+    def __bool__(self):
+        return False
+
+
+class FalseTuple(tuple):
+    def __bool__(self):
+        return False
+
+
+class TrueDict(dict):
+    def __bool__(self):
+        return True
+
+
+class FalseStr(str):
+    def __bool__(self):
+        return False
+
+
+class TrueInt(int):
+    def __bool__(self):
+        return True
+
+
+def ds_value_kinds():
+    """(label, factory of a fresh value, its truth BY CONSTRUCTION (Python's truth protocol), may be shown by dtml-var)"""
+    import decimal
+    import fractions
+    S, SB = SeqLike, SeqLikeBool
+    return [
+        ('0', lambda: 0, False, True), ('1', lambda: 1, True, True), ('-1', lambda: -1, True, True),
+        ('0.0', lambda: 0.0, False, True), ('0.5', lambda: 0.5, True, True), ('nan', lambda: float('nan'), True, True),
+        ('0j', lambda: 0j, False, True), ('True', lambda: True, True, True), ('False', lambda: False, False, True),
+        ('None', lambda: None, False, True), ("''", lambda: '', False, True), ("'x'", lambda: 'x', True, True),
+        ("' '", lambda: ' ', True, True), ("'0'", lambda: '0', True, True), ("b''", lambda: b'', False, False),
+        ("b'x'", lambda: b'x', True, False), ('[]', lambda: [], False, True), ('[0]', lambda: [0], True, True),
+        ('[[]]', lambda: [[]], True, True), ('()', lambda: (), False, True), ('(0,)', lambda: (0,), True, True),
+        ('{}', lambda: {}, False, True), ('{0: 0}', lambda: {0: 0}, True, True), ('set()', lambda: set(), False, True),
+        ('{0}', lambda: {0}, True, True), ('frozenset()', lambda: frozenset(), False, True),
+        ('range(0)', lambda: range(0), False, True), ('range(1, 3)', lambda: range(1, 3), True, True),
+        ('Decimal(0)', lambda: decimal.Decimal('0.0'), False, True), ('Decimal(2)', lambda: decimal.Decimal(2), True, True),
+        ('Fraction(0)', lambda: fractions.Fraction(0), False, True), ('Fraction(1, 2)', lambda: fractions.Fraction(1, 2), True, True),
+        ('Plain()', Plain, True, True),
+        ('seq[r1, r2]', lambda: S(['r1', 'r2'], label='seq 2'), True, True),
+        ('seq[]', lambda: S([], label='seq 0'), False, True),
+        ('seq[0] (false first row)', lambda: S([0], label='seq of 0'), True, True),
+        ('seq[r1, r2] __bool__ False', lambda: SB(['r1', 'r2'], truth=False, label='seq 2 false'), False, True),
+        ('seq[r1, r2] __bool__ True', lambda: SB(['r1', 'r2'], truth=True, label='seq 2 true'), True, True),
+        ('seq[] __bool__ True', lambda: SB([], truth=True, label='seq 0 true'), True, True),
+        ('seq[] __bool__ False', lambda: SB([], truth=False, label='seq 0 false'), False, True),
+        ('seq from 1 [a, b]', lambda: S(['a', 'b'], base=1, label='seq from 1'), True, True),
+        ('seq from 1 []', lambda: S([], base=1, label='seq from 1, empty'), False, True),
+        ('seq from -2 [a]', lambda: S(['a'], base=-2, label='seq from -2'), True, True),
+        ('seq from 5 [a] __bool__ False', lambda: SB(['a'], base=5, truth=False, label='seq from 5 false'), False, True),
+        ('string-keyed [a]', lambda: StrKeyed(['a'], label='strkeyed 1'), True, True),
+        ('string-keyed []', lambda: StrKeyed([], label='strkeyed 0'), False, True),
+        ('LenOnly(0)', lambda: LenOnly(0), False, True), ('LenOnly(3)', lambda: LenOnly(3), True, True),
+        ('BoolOnly(False)', lambda: BoolOnly(False), False, True), ('BoolOnly(True)', lambda: BoolOnly(True), True, True),
+        ('BoolOverLen(0, True)', lambda: BoolOverLen(0, True), True, True),
+        ('BoolOverLen(2, False)', lambda: BoolOverLen(2, False), False, True),
+        ('GetItemOnly()', GetItemOnly, True, True),
+        ('maplike []', lambda: MapLike([], label='maplike 0'), False, True),
+        ('maplike [a]', lambda: MapLike(['a'], label='maplike 1'), True, True),
+        ('maplike [] __bool__ True', lambda: MapLikeBool([], truth=True, label='maplike 0 true'), True, True),
+        ('maplike [a] __bool__ False', lambda: MapLikeBool(['a'], truth=False, label='maplike 1 false'), False, True),
+        ('TrueList()', lambda: TrueList(), True, True), ('FalseList([1])', lambda: FalseList([1]), False, True),
+        ('FalseTuple((1,))', lambda: FalseTuple((1,)), False, True), ('TrueDict()', lambda: TrueDict(), True, True),
+        ("FalseStr('s')", lambda: FalseStr('s'), False, False), ('TrueInt(0)', lambda: TrueInt(0), True, True),
+    ]
+
+
+DS_VALUES = ds_value_kinds()
+DS_ODD = [i for i, v in enumerate(DS_VALUES) if v[0][0] in 'sSLBGmTF' and v[0] not in ('set()', 'True', 'False')]
+
+
+class DSServed:
+    """a namespace callable with a logged side effect"""
+
+    def __init__(self, events, fid, value):
+        self.events, self.fid, self.value = events, fid, value
+
+    def __call__(self):
+        self.events.append(('call', self.fid))
+        return self.value
+
+
+class KeyMap:
+    """a data source that is a mapping class of its own: a name it does not have is a KeyError; successful evaluations are
+    logged (they are the side effect of a formula-like source)"""
+    missing = KeyError
+
+    def __init__(self, events, lid, d):
+        self.events, self.lid, self.d = events, lid, d
+
+    def __getitem__(self, k):
+        if k not in self.d:
+            raise self.missing(k)
+        self.events.append(('get', self.lid, k))
+        return self.d[k]
+
+
+class NameMap(KeyMap):
+    """... which evaluates names the way Python does: a name it does not know is a NameError"""
+    missing = NameError
+
+
+class MissingDict(dict):
+    def __missing__(self, k):
+        raise NameError("name %r is not defined" % k)
+
+
+class DSObject:
+    pass
+
+
+class DSSkip(Exception):
+    pass
+
+
+DS_MAP_KINDS = ['dict', 'keymap', 'namemap', 'namemap', 'missingdict', 'userdict']
+# documented order of consultation (DT_String.__call__): keyword arguments, client, mapping argument, creation keywords
+DS_CALL_ORDER = ['defaults', 'mapping', 'client', 'kw']
+
+
+def ds_layer(lid, pos, kind, names):
+    return {'id': lid, 'pos': pos, 'kind': kind, 'names': names, 'logs': kind in ('keymap', 'namemap')}
+
+
+def ds_val(vi, fid=None):
+    return {'vi': vi, 'fid': fid}
+
+
+class DSOracle:
+    """the property's rule over the abstract program: a name is looked up from the top data source down, the first source
+    that HAS it decides (a source that does not have it - however it says so - is passed over); undefined = false; truth =
+    Python's; first true condition wins, later ones are not evaluated; a named condition's value is kept for the
+    conditional"""
+
+    def __init__(self, prog):
+        self.prog = prog
+        self.events = []
+        self.out = []
+
+    def lookup(self, n, stack, call):
+        for L in reversed(stack):
+            if n in L['names']:
+                if L['logs']:
+                    self.events.append(('get', L['id'], n))
+                v = L['names'][n]
+                if v['fid'] is not None and call:
+                    self.events.append(('call', v['fid']))
+                    return ds_val(v['vi'])
+                return v
+        return None
+
+    @staticmethod
+    def truth(v):
+        if v is None:
+            return False
+        if v['fid'] is not None:
+            return True         # the callable itself (an expression naming it does not call it)
+        return DS_VALUES[v['vi']][2] if isinstance(v['vi'], int) else bool(v['vi'][0])
+
+    def cond(self, src, stack):
+        if src[0] == 'n':
+            v = self.lookup(src[1], stack, True)
+            if v is not None:
+                stack[-1]['names'][src[1]] = v
+            return self.truth(v)
+        v = self.lookup(src[1], stack, False)
+        if v is None:
+            raise DSSkip()
+        return self.truth(v) != (src[0] == 'xnot')
+
+    def render(self, blocks, stack):
+        for b in blocks:
+            k = b[0]
+            if k == 'lit':
+                self.out.append(b[1])
+            elif k == 'var':
+                v = self.lookup(b[1], stack, True)
+                if v is None:
+                    raise DSSkip()
+                if isinstance(v['vi'], int):
+                    if not DS_VALUES[v['vi']][3]:
+                        raise DSSkip()
+                    self.out.append(str(DS_VALUES[v['vi']][1]()))
+                else:
+                    self.out.append(str(v['vi'][0]))
+            elif k == 'cond':
+                stack.append(ds_layer(-1, 'cache', 'dict', {}))
+                for src, body in b[1]:
+                    if self.cond(src, stack):
+                        self.render(body, stack)
+                        break
+                else:
+                    if b[2] is not None:
+                        self.render(b[2], stack)
+                stack.pop()
+            elif k == 'unless':
+                stack.append(ds_layer(-1, 'cache', 'dict', {}))
+                if not self.cond(b[1], stack):
+                    self.render(b[2], stack)
+                stack.pop()
+            elif k == 'call':
+                stack.append(ds_layer(-1, 'cache', 'dict', {}))
+                self.cond(b[1], stack)
+                stack.pop()
+            elif k in ('with', 'in'):
+                if self.lookup(b[1]['ref'], stack, True) is None:
+                    raise DSSkip()
+                stack.append(b[1])
+                self.render(b[2], stack)
+                stack.pop()
+            elif k == 'let':
+                stack.append(ds_layer(-1, 'let', 'dict', {n: ds_val((lit,)) for n, lit in b[1]}))
+                self.render(b[2], stack)
+                stack.pop()
+            else:
+                raise ValueError(k)
+
+
+def ds_predict(prog):
+    o = DSOracle(prog)
+    o.render(prog['blocks'], [L for pos in DS_CALL_ORDER for L in prog['layers'] if L['pos'] == pos])
+    return ''.join(o.out), o.events
+
+
+def ds_source(blocks, syntax, rs):
+    def tag(name, args='', end=False, block=True):
+        if syntax == 'dtml':
+            return '</dtml-%s>' % name if end else '<dtml-%s%s>' % (name, ' ' + args if args else '')
+        if syntax == 'ssi':
+            return '<!--#/%s-->' % name if end else '<!--#%s%s-->' % (name, ' ' + args if args else '')
+        if end:
+            return '%%(%s)]' % name
+        sep = '  ' if args.startswith('"') else ' '
+        return '%%(%s%s)%s' % (name, sep + args if args else '', '[' if block else 's')
+
+    def target(s):
+        if s[0] == 'n':
+            return s[1] if rs.random() < 0.8 else 'name=' + s[1]
+        e = s[1] if s[0] == 'x' else 'not ' + s[1]
+        return '"%s"' % e if rs.random() < 0.6 else 'expr="%s"' % e
+
+    out = []
+    for b in blocks:
+        k = b[0]
+        if k == 'lit':
+            out.append(b[1])
+        elif k == 'var':
+            out.append(tag('var', b[1], block=False))
+        elif k == 'cond':
+            for i, (src, body) in enumerate(b[1]):
+                out.append(tag('elif' if i else 'if', target(src)))
+                out.append(ds_source(body, syntax, rs))
+            if b[2] is not None:
+                out.append(tag('else') + ds_source(b[2], syntax, rs))
+            out.append(tag('if', end=True))
+        elif k == 'unless':
+            out.append(tag('unless', target(b[1])) + ds_source(b[2], syntax, rs) + tag('unless', end=True))
+        elif k == 'call':
+            out.append(tag('call', target(b[1])))
+        elif k == 'with':
+            out.append(tag('with', b[1]['ref'] + ('' if b[1]['kind'] == 'object' else ' mapping')) + ds_source(b[2], syntax, rs)
+                       + tag('with', end=True))
+        elif k == 'in':
+            out.append(tag('in', b[1]['ref'] + ' mapping') + ds_source(b[2], syntax, rs) + tag('in', end=True))
+        elif k == 'let':
+            out.append(tag('let', ' '.join('%s="%r"' % (n, lit) for n, lit in b[1])) + ds_source(b[2], syntax, rs)
+                       + tag('let', end=True))
+    return ''.join(out)
+
+
+def ds_run_real(prog, source, klass):
+    import collections
+    from DocumentTemplate import HTML
+    from DocumentTemplate import String
+    events = []
+
+    def value(v):
+        x = DS_VALUES[v['vi']][1]()
+        return x if v['fid'] is None else DSServed(events, v['fid'], x)
+
+    def source_of(L):
+        d = {n: value(v) for n, v in L['names'].items() if isinstance(v['vi'], int)}
+        if L['kind'] == 'dict':
+            return d
+        if L['kind'] == 'keymap':
+            return KeyMap(events, L['id'], d)
+        if L['kind'] == 'namemap':
+            return NameMap(events, L['id'], d)
+        if L['kind'] == 'missingdict':
+            return MissingDict(d)
+        if L['kind'] == 'userdict':
+            return collections.UserDict(d)
+        o = DSObject()
+        o.__dict__.update(d)
+        return o
+
+    args = {'defaults': {}, 'mapping': {}, 'client': None, 'kw': {}}
+    for L in prog['layers']:
+        args[L['pos']] = source_of(L)
+    for L in prog['pushed']:
+        args['kw'][L['ref']] = [source_of(L)] if L['pos'] == 'in' else source_of(L)
+    try:
+        t = {'String': String, 'HTML': HTML}[klass](source, **args['defaults'])
+        return t(args['client'], args['mapping'], **args['kw']), events
+    except Exception as e:  # noqa
+        return 'raised %s: %s' % (type(e).__name__, e), events
+
+
+class DSGen:
+    def __init__(self, r):
+        self.r = r
+        self.lid = 0
+        self.fid = 0
+        self.layers = []
+        self.pushed = []
+
+    def val(self, vi, served=None):
+        if served is None:
+            served = self.r.random() < 0.4
+        if served:
+            self.fid += 1
+            return ds_val(vi, self.fid)
+        return ds_val(vi)
+
+    def layer(self, pos, names, kind=None):
+        r = self.r
+        if kind is None:
+            kind = {'defaults': 'dict', 'kw': 'dict', 'client': 'object'}.get(pos) or r.choice(DS_MAP_KINDS)
+            if pos == 'with' and r.random() < 0.3:
+                kind = 'object'
+        self.lid += 1
+        L = ds_layer(self.lid, pos, kind, names)
+        if pos in ('with', 'in'):
+            L['ref'] = 'src%d' % self.lid
+            self.pushed.append(L)
+        else:
+            self.layers.append(L)
+        return L
+
+    def prog(self, blocks):
+        # the pushed sources are found by name among the keyword arguments
+        kw = [L for L in self.layers if L['pos'] == 'kw']
+        if self.pushed and not kw:
+            kw = [self.layer('kw', {})]
+        for L in self.pushed:
+            kw[0]['names'][L['ref']] = ds_val(('<source>',))
+        return {'layers': self.layers, 'pushed': self.pushed, 'blocks': blocks}
+
+
+def ds_stack(g, r, home, names_here, other_names, force_name_error=True):
+    """a namespace: call-level sources + pushed ones (returned as wrappers, innermost last); the source at position `home`
+    (None: nowhere) holds `names_here`; every other source holds a random part of `other_names` - and not the names of
+    `names_here`, which it has to report as missing"""
+    positions = ['defaults', 'mapping', 'client', 'kw', 'with', 'in', 'with']
+    chosen = [p for p in positions[:4] if p == home or r.random() < 0.6]
+    npush = r.choice([0, 0, 1, 1, 2])
+    pushes = [r.choice(['with', 'in']) for _ in range(npush)]
+    if home in ('with', 'in'):
+        pushes.insert(r.randrange(len(pushes) + 1), home + '!')
+    if 'mapping' not in chosen and not pushes and force_name_error:
+        chosen.append('mapping')
+    wrappers = []
+    kinds = []
+    for p in [p for p in DS_CALL_ORDER if p in chosen] + pushes:
+        mine = p.rstrip('!') == home and (p.endswith('!') or p in DS_CALL_ORDER)
+        names = dict(names_here) if mine else {n: g.val(r.randrange(len(DS_VALUES))) for n in other_names if r.random() < 0.4}
+        if p == 'mapping' and not names:
+            names = {'unused': ds_val(1)}           # (an empty mapping argument is not a data source at all)
+        L = g.layer(p.rstrip('!'), names)
+        kinds.append(L['kind'])
+        if L['pos'] in ('with', 'in'):
+            wrappers.append(L)
+    if force_name_error and not any(k in ('namemap', 'missingdict') for k in kinds):
+        # make one of the mapping sources a NameError-reporting one
+        for L in g.layers + g.pushed:
+            if L['pos'] in ('mapping', 'with', 'in') and L['kind'] != 'object':
+                L['kind'] = r.choice(['namemap', 'missingdict'])
+                L['logs'] = L['kind'] == 'namemap'
+                break
+    return wrappers
+
+
+def ds_wrap(r, wrappers, blocks, lets=()):
+    for L in reversed(wrappers):
+        blocks = [[L['pos'], L, blocks]]
+        if lets and r.random() < 0.3:
+            blocks = [['let', list(lets), blocks]]
+    return blocks
+
+
+DS_FORMS = ['if', 'unless', 'elif', 'call', 'xif', 'xnot', 'xunless', 'twice']
+
+
+def ds_form(g, form, n):
+    """one conditional on the name n (z: a false constant, y: a true callable - both in the keyword arguments)"""
+    ref = [['var', n]]
+    if form == 'if':
+        return [['cond', [(('n', n), [['lit', 'T[']] + ref + [['lit', ']']])], [['lit', 'F']]]]
+    if form == 'unless':
+        return [['unless', ('n', n), [['lit', 'U']]], ['lit', '.']]
+    if form == 'elif':
+        return [['cond', [(('n', 'z'), [['lit', 'A']]), (('n', n), [['lit', 'B']] + ref), (('n', 'y'), [['lit', 'C']])],
+                 [['lit', 'E']]]]
+    if form == 'call':
+        return [['lit', '['], ['call', ('n', n)], ['lit', ']']]
+    if form == 'xif':
+        return [['cond', [(('x', n), [['lit', 'T']])], [['lit', 'F']]]]
+    if form == 'xnot':
+        return [['cond', [(('xnot', n), [['lit', 'N']]), (('n', n), [['lit', 'T']] + ref)], [['lit', 'F']]]]
+    if form == 'xunless':
+        return [['unless', ('x', n), [['lit', 'U']]], ['lit', '.']]
+    # the name twice in one chain (one evaluation), then again in a second conditional (a fresh one)
+    return [['cond', [(('n', 'z'), [['lit', 'A']]), (('n', n), [['lit', 'B']]), (('n', n), [['lit', 'B2']])], [['lit', 'E']]],
+            ['unless', ('n', n), [['lit', 'U']]]]
+
+
+def gen_ds_systematic(r, tier):
+    """every kind of value x plain / served by a callable x every form of conditional, the name living in a random data
+    source of a random stack (thorough: in every position); and the name defined nowhere"""
+    homes = ['defaults', 'mapping', 'client', 'kw', 'with', 'in']
+    for vi in list(range(len(DS_VALUES))) + [None]:
+        for served in (False, True):
+            if vi is None and served:
+                continue
+            for form in DS_FORMS:
+                if vi is None and form in ('xif', 'xnot', 'xunless'):
+                    continue        # an undefined name inside an expression is an error, not a false condition
+                for home in (homes if tier == 'thorough' else [r.choice(homes)]):
+                    g = DSGen(r)
+                    here = {} if vi is None else {'a': g.val(vi, served)}
+                    wrappers = ds_stack(g, r, None if vi is None else home, here, ['p', 'q'])
+                    kw = [L for L in g.layers if L['pos'] == 'kw'] or [g.layer('kw', {})]
+                    kw[0]['names'].update({'z': ds_val(0), 'y': g.val(1, True)})
+                    blocks = ds_wrap(r, wrappers, ds_form(g, form, 'a'))
+                    yield g.prog(blocks), ('ds', form, 'undefined' if vi is None else DS_VALUES[vi][0], served, home)
+
+
+def gen_ds_random(r):
+    """a chain of 1..5 conditions (names / expressions) over 4 names spread over a random stack of data sources; a name may be
+    in several sources with different values (the topmost decides)"""
+    g = DSGen(r)
+    names = ['a', 'b', 'c', 'd']
+    pool = DS_ODD if r.random() < 0.5 else list(range(len(DS_VALUES)))
+    defined = [n for n in names if r.random() < 0.7]
+    home = r.choice(['defaults', 'mapping', 'client', 'kw', 'with', 'in'])
+    here = {n: g.val(r.choice(pool)) for n in defined if r.random() < 0.5}
+    wrappers = ds_stack(g, r, home, here, defined)
+    k = r.randint(1, 5)
+    conds = []
+    used = []
+    for i in range(k):
+        n = r.choice(names)
+        c = r.random()
+        src = ('n', n) if c < 0.7 or n not in defined else (('x', n) if c < 0.85 else ('xnot', n))
+        used.append(n)
+        body = [['lit', '%d:' % i]] + [['var', m] for m in used if r.random() < 0.4]
+        conds.append((src, body))
+    els = [['lit', 'E']] if r.random() < 0.6 else None
+    shape = r.random()
+    if shape < 0.7:
+        blocks = [['cond', conds, els]]
+    elif shape < 0.85:
+        blocks = [['unless', conds[0][0], conds[0][1]]]
+    else:
+        blocks = [['lit', '['], ['call', conds[0][0]], ['lit', ']']]
+    blocks = blocks + [['lit', '|'], ['unless', ('n', r.choice(names)), [['lit', 'U']]]]
+    lets = [(n, r.choice([0, 1, '', 's'])) for n in names if r.random() < 0.2]
+    return g.prog(ds_wrap(r, wrappers, blocks, lets)), ('ds-random', k, home)
+
+
+def ds_strip_vars(blocks):
+    out = []
+    for b in blocks:
+        if b[0] == 'var':
+            continue
+        if b[0] == 'cond':
+            b = ['cond', [(s, ds_strip_vars(body)) for s, body in b[1]], None if b[2] is None else ds_strip_vars(b[2])]
+        elif b[0] in ('unless', 'with', 'in', 'let'):
+            b = [b[0], b[1], ds_strip_vars(b[2])]
+        out.append(b)
+    return out
+
+
+def check_data_sources(res, tier):
+    r = common.rng('C09-data-sources')
+    progs = list(gen_ds_systematic(r, tier))
+    for _ in range(1200 if tier == 'quick' else 20000):
+        progs.append(gen_ds_random(r))
+    n = 0
+    for prog, key in progs:
+        try:
+            exp = ds_predict(prog)
+        except DSSkip:
+            # a reference in a body to a name that is not defined there / a value dtml-var is not asked to show here:
+            # the same conditional without the references
+            prog['blocks'] = ds_strip_vars(prog['blocks'])
+            try:
+                exp = ds_predict(prog)
+            except DSSkip:
+                continue
+        syntax = r.choice(SYNTAXES)
+        source = ds_source(prog['blocks'], syntax, r)
+        klass = 'String' if syntax == 'epfs' else 'HTML'
+        got = ds_run_real(prog, source, klass)
+        n += 1
+        res.evaluations += 1
+        res.nt(key)
+        res.count('form=objects-and-data-sources')
+        res.count('data-sources:' + key[0] + ('' if key[0] != 'ds' else ':' + key[1]))
+        for L in prog['layers'] + prog['pushed']:
+            res.count('data-source:%s(%s)' % (L['pos'], L['kind']))
+        if (got[0], got[1]) != (exp[0], exp[1]):
+            res.oracle_fail.append({
+                'case': {'source': source, 'class': klass, 'family': 'objects-and-data-sources',
+                         'data_sources (lowest first; then the pushed ones)': [
+                             {'at': L['pos'], 'kind': L['kind'], 'id': L['id'], 'ref': L.get('ref'),
+                              'names': {nm: (DS_VALUES[v['vi']][0] if isinstance(v['vi'], int) else repr(v['vi'][0]))
+                                        + ('' if v['fid'] is None else ' served by callable %d' % v['fid'])
+                                        for nm, v in L['names'].items()}}
+                             for L in prog['layers'] + prog['pushed']]},
+                'what': 'expected %r with events %r; got %r with events %r' % (exp[0], exp[1], got[0], got[1])})
+    return n
+
+
 def run(res, tier, have_driver):
     r = common.rng('C09')
     res.rule = ('dtml-if chains of 1..5 conditions (+else), dtml-unless, dtml-call; conditions = names bound to plain true/false '
@@ -1259,6 +1902,19 @@ def run(res, tier, have_driver):
     histories = [gen_history(rh) for _ in range(nh)] + [gen_history(rh, True) for _ in range(nh // 2)]
     restyle(common.rng('C09-spelling'), items + histories)
     runs = check(res, items, have_driver, r, histories)
+    nds = check_data_sources(res, tier)
+    res.rule += ('.  OBJECTS AND DATA SOURCES (real classes against a plain-Python reference): %d programs; condition values of '
+                 '%d kinds (numbers incl. 0.0 / nan / 0j / Decimal / Fraction, strings, bytes, containers, ranges, plain objects, '
+                 'sequence-like objects whose truth differs from "has an element 0" (explicit __bool__, indices not starting at 0, '
+                 'string keys), __len__-only / __bool__-only / __bool__-over-__len__ objects, mapping-like objects, subclasses of '
+                 'list / tuple / dict / str / int overriding __bool__), plain or served by a logged callable, x 8 forms (if/else '
+                 'with reference, unless, elif between a false and a true condition, call, "expr", "not expr", unless "expr", '
+                 'repeated name) x the data source holding the name (template defaults, mapping argument, client object, keyword '
+                 'arguments, dtml-with object / mapping, dtml-in mapping) in a stack of further sources of every kind (dict, '
+                 'mapping class raising KeyError, mapping class / dict subclass raising NameError for a missing name, UserDict, '
+                 'object) that do not have the name, and the name defined nowhere; random chains of 1..5 conditions over 4 names '
+                 'spread over such stacks; 3 syntaxes; expected text + ordered log of callable invocations and of evaluations by '
+                 'logging sources' % (nds, len(DS_VALUES)))
     res.oracle_fail.sort(key=lambda f: len(f['case']['source']))      # the replay shows the shortest failing input
     res.exhaustive = False
     for i in (0, len(runs) // 2, len(runs) - 1):
@@ -1294,6 +1950,7 @@ def search_more(res, tier):
     hist = [gen_history(r, i % 3 == 2) for i in range(3000)]
     restyle(r, items + hist)
     check(res2, items, False, r, hist)
+    check_data_sources(res2, tier)
     return res2.oracle_fail
 
 
